@@ -22,3 +22,17 @@ ben('C16', 'GetTimeSeries-rename-local', [('models.py', "                val = l
      "                out = list(series_holder[series])\n            else:\n                out = series_holder[series][0:(cutoff + 1)]\n        except KeyError:\n            raise KeyError('No such series \"{0}\"'.format(series))\n        if self.TimeSeriesSupressTimeZero:\n            out.pop(0)\n        return out")])
 ben('C16', 'GetTimeSeries-slice-copy', [('models.py', "val = list(series_holder[series])", "val = series_holder[series][:]")])
 ben('C16', 'CreateCsvString-slice-copy', [('base_solver.py', "varlist = list(self.VariableList)", "varlist = self.VariableList[:]")])
+
+# ---- C19 ---------------------------------------------------------------------------------------------
+mut('C19', 'GetSeriesList-no-sort', [('utils.py', "        serlist.sort()\n        included = []", "        included = []")], 'rest_sorted')
+mut('C19', 'priority-order-swapped', [('utils.py', "'iteration_abs_change', 'k', 't')", "'iteration_abs_change', 't', 'k')")], 'documented_priority_order')
+mut('C19', 'GetSeriesList-keeps-priority-in-rest', [('utils.py', "                included.append(x)\n                serlist.remove(x)", "                included.append(x)")], ['rest_are_keys', 'priority_then_alphabetical'])
+mut('C19', 'csv-skips-first-row', [('utils.py', "for i in range(0, N):", "for i in range(1, N):")], ['table_so_far', 'bounds'])
+mut('C19', 'csv-longest-series', [('utils.py', "N = min(lengths)", "N = max(lengths)")], ['N_at_most_every_length', 'IndexError'])
+mut('C19', 'csv-drops-last-row', [('utils.py', "for i in range(0, N):", "for i in range(0, N - 1):")], ['header_then_rows', 'bounds'])
+mut('C19', 'csv-space-separated-header', [('utils.py', "out = '\\t'.join(varz) + '\\n'", "out = ' '.join(varz) + '\\n'")], 'table_so_far')
+mut('C19', 'csv-lagged-cell', [('utils.py', "row.append(self[v][i], )", "row.append(self[v][max(i - 1, 0)], )")], 'row_so_far')
+mut('C19', 'csv-default-format-cells', [('utils.py', "row = [format_str % (x,) for x in row]", "row = ['%.5g' % (x,) for x in row]")], 'table_so_far')
+mut('C19', 'csv-sorts-store', [('utils.py', "        varz = self.GetSeriesList()\n", "        varz = self.GetSeriesList()\n        for v in varz:\n            self[v].sort()\n")], ['frame', 'lists_unchanged', 'GenerateCSVtext'])
+ben('C19', 'csv-rename-locals', [('utils.py', "        lengths = [len(x) for x in self.values()]\n        N = min(lengths)", "        sizes = [len(x) for x in self.values()]\n        N = min(sizes)")])
+ben('C19', 'GetSeriesList-sorted-builtin-free', [('utils.py', "        serlist = list(self.keys())\n        serlist.sort()", "        serlist = list(self)\n        serlist.sort()")])
